@@ -110,7 +110,7 @@ class C13(object):
     ]
 
     def budget(self, tier):
-        return 24_000 if tier == "quick" else 600_000
+        return 24_000 if tier == "quick" else 400_000
 
     # -- generation -----------------------------------------------------------------------
     def generate(self, rng, tier, i):
